@@ -125,6 +125,8 @@ func aggqEngineFacts(b *strings.Builder, t *tr, p *packages.Package) {
 		val  ast.Expr
 	}
 	var fields []field
+	var schedArgs []ast.Expr // the context / cancel-function arguments of the buildNewInstanceSchedule call
+	nSchedCalls := 0
 	var param ast.Expr
 	if fd.Type.Params != nil {
 		for _, f := range fd.Type.Params.List {
@@ -143,6 +145,16 @@ func aggqEngineFacts(b *strings.Builder, t *tr, p *packages.Package) {
 					mention(x.Lhs[0])
 					mention(x.Lhs[1])
 					mention(c.Args[0])
+				}
+			}
+		case *ast.CallExpr:
+			if strings.HasSuffix(phoutSrc(t, x.Fun), ".buildNewInstanceSchedule") {
+				nSchedCalls++
+				for _, a := range x.Args {
+					if ty := info.TypeOf(a); aggqIsContext(ty) || aggqIsCancelFunc(ty) {
+						schedArgs = append(schedArgs, a)
+						mention(a)
+					}
 				}
 			}
 		case *ast.GoStmt:
@@ -263,6 +275,11 @@ func aggqEngineFacts(b *strings.Builder, t *tr, p *packages.Package) {
 		}
 		fmt.Fprintf(b, "def %s : List Nat := %s\n", want[1], val)
 	}
+	if nSchedCalls != 1 {
+		t.errs = append(t.errs, fmt.Sprintf("core/engine/engine.go runAsync: %d calls of buildNewInstanceSchedule (want 1)", nSchedCalls))
+	}
+	b.WriteString("\n/-- regenerated: the context and cancel-function arguments runAsync passes to `buildNewInstanceSchedule` (the shared schedule's on-finish callback cancels the second one) -/\n")
+	fmt.Fprintf(b, "def engineBuildScheduleArgs : List Nat := %s\n", nums(schedArgs))
 	b.WriteString("\n/-- regenerated: the `poolAsyncRunHandle` literal runAsync returns: which local each context / cancel field is set to -/\n")
 	for _, want := range [][2]string{{"poolCtx", "engineHandlePoolCtx"}, {"runCtx", "engineHandleRunCtx"}, {"runCancel", "engineHandleRunCancel"},
 		{"instanceStartCtx", "engineHandleInstanceStartCtx"}, {"instanceStartCancel", "engineHandleInstanceStartCancel"}} {
